@@ -48,8 +48,8 @@ CLAIMED["C13"] = ("Deductive proof with ghost state: (readers) the scanner's fir
 
 CLAIMED["C12"] = ("Deductive proof, over a ghost input tape (the sequence of all bytes the underlying reader delivers, in portions of arbitrary size: the io.Reader contract leaves every n in 0..len(p) free, so every delivery schedule is covered by the universally quantified n), that the scanner's byte layer hands out exactly tape(c), tape(c+1), ... in clear-text mode: refill appends exactly the next tape bytes and is only called on an empty buffer; readByteRaw/readByte/Next return tape(cursor) and advance the cursor by one, Peek returns it without moving; the bytes in memory are always tape[cursor, tpos); data delivered together with an error is handed out before the error.",
   "Partial: the token layer above the byte layer is covered only through the per-token contracts of C04; eexec mode, the split-Execute equivalence, the seekable/non-seekable branch of type1.Read and afm.Read (bufio.Scanner) are not under contract; fewer than 2^62 input bytes (see evidence.not_covered). Trusted: io.Reader interface contract, govc, go/ssa, solvers.", T, "DESIGN.md A.4 C12")
-CLAIMED["C18"] = ("Deductive proof of the isolation half: every composite object reachable from a new interpreter (system, user, error, internal, font, CMap and resource dictionaries, the dictionary stack, the StandardEncoding array, the ProcSet dictionary and its CIDInit procedure set) is allocated during NewInterpreter/makeSystemDict (fresh(x): its reference is newer than the allocation counter at entry), hence shared with no earlier instance and with no package-level variable; package-level tables are only read.",
-  "Partial: the data-race half (all interleavings) is outside a sequential verifier; the lock discipline of the lazily built name tables is not under contract (see evidence.not_covered). Trusted: maps.Clone returns a fresh map; govc, go/ssa, solvers.", T, "DESIGN.md §3 C18")
+CLAIMED["C18"] = ("Deductive proof of (a) isolation: every composite object reachable from a new interpreter (system, user, error, internal, font, CMap and resource dictionaries, the dictionary stack, the StandardEncoding array, the ProcSet dictionary and its CIDInit procedure set) is allocated during NewInterpreter/makeSystemDict (fresh(x): its reference is newer than the allocation counter at entry), hence shared with no earlier instance and with no package-level variable; (b) the lock discipline of the lazily built glyph-name tables: every access to a field of glyphMap happens with its mutex held (obligation kind locked), Unlock is only reached with the mutex held, the internal builder getFile is only called with the mutex held.",
+  "Partial: the data-race half is proved as a discipline (fields touched only under the lock), not as a statement about interleavings; immutability of the published name map read without the lock, a module-wide scan that no other package-level variable is written after init, and 'same results as sequential use' are not under contract (see evidence.not_covered). sync.Mutex is one ghost flag per function. Trusted: maps.Clone returns a fresh map; govc, go/ssa, solvers.", T, "DESIGN.md A.4 C18")
 CLAIMED["C19"] = ("Deductive proof of the derived-metrics contracts: NumGlyphs counts the glyph map plus .notdef when missing (Type 1 and AFM); GlyphList has that length; the Type 1 bounding box is empty exactly when no glyph has a point, and otherwise contains every control point of every glyph (loop invariants over all glyphs and commands) and touches a point on each side; GlyphWidthPDF returns the stored width scaled by 1000*FontMatrix[0] (Type 1) or the AFM width, 0 for unknown names.",
   "Partial: GlyphList order (.notdef first, encoding order, then alphabetical) and BuiltinEncoding are not under functional contract; float arithmetic is treated as real arithmetic (see evidence.not_covered). Trusted: sort.Slice, govc, go/ssa, solvers.", T, "DESIGN.md §3 C19")
 CLAIMED["C17"] = ("Deductive proof of order independence for every loop over a Go map (and over a not yet sorted maps.Keys result) in the anchored files: for two arbitrary distinct entries, running the loop body for one then the other from any state satisfying the loop invariants gives the same heap and locals as the opposite order, and no iteration leaves the loop (obligation kind maporder; adjacent transpositions generate all orders); every maps.Keys result is sorted before any order-sensitive use (kind keys-sorted); type1.Read's choice of the font dictionary is order independent because exactly one font is present (invariant len(FontDirectory) == 1).",
